@@ -39,7 +39,11 @@ type c07Case struct {
 	Rounds     int       `json:"rounds"` // compilations per goroutine
 	GoMaxProcs int       `json:"gomaxprocs"`
 	SeqRepeats int       `json:"seq_repeats"` // sequential re-compilations of Specs[0]
-	Classes    []string  `json:"classes,omitempty"`
+	// ColdFirst: the concurrent phase runs first, in a process that has compiled nothing yet, and the
+	// sequential baseline afterwards (state that is lazily initialised on first use and then only read
+	// is raced on only while it is cold: a baseline computed first would warm it up and hide the race)
+	ColdFirst bool     `json:"cold_first,omitempty"`
+	Classes   []string `json:"classes,omitempty"`
 }
 
 // corpus files that compile on their own (decided once per process, sequentially)
@@ -73,6 +77,7 @@ func genC07(t *rapid.T) c07Case {
 	}
 	k := rapid.IntRange(2, maxK).Draw(t, "k")
 	c := c07Case{GoMaxProcs: rapid.IntRange(1, 16).Draw(t, "gomaxprocs"), SeqRepeats: 20}
+	c.ColdFirst = rapid.IntRange(0, 2).Draw(t, "coldfirst") != 0
 	classes := map[string]bool{}
 	// Specs[0]: always a mixin chain of >=3 apps (post-processing order matters for it)
 	for i := 0; i < k; i++ {
@@ -212,31 +217,40 @@ func c07Concurrent(c c07Case) *c07ConcRes {
 		return res
 	}
 	races0 := c07RaceErrors()
-	// ---- sequential baseline
 	base := make([]c07Out, len(c.Specs))
-	for i, s := range c.Specs {
-		base[i] = c07Run(s)
-		cl("spec_" + s.Kind)
-		if base[i].Panic != "" {
-			// crashes of the compiler are C01's/C20's subject; without a baseline there is nothing to compare
-			cl("baseline_panic")
-			return res
+	sequential := func() bool {
+		// ---- sequential baseline
+		for i, s := range c.Specs {
+			base[i] = c07Run(s)
+			cl("spec_" + s.Kind)
+			if base[i].Panic != "" {
+				// crashes of the compiler are C01's/C20's subject; without a baseline there is nothing to compare
+				cl("baseline_panic")
+				return false
+			}
+			if base[i].Err != "" {
+				cl("baseline_rejected_" + s.Kind)
+			}
 		}
-		if base[i].Err != "" {
-			cl("baseline_rejected_" + s.Kind)
+		// ---- sequential repetition (catches order-dependent post-processing)
+		for r := 0; r < c.SeqRepeats; r++ {
+			i := 0
+			if r%4 == 3 {
+				i = (r / 4) % len(c.Specs)
+			}
+			if d := base[i].diff(c07Run(c.Specs[i])); d != "" {
+				res.Violation = fmt.Sprintf("sequential compilation %d of spec %d differs from the first one: %s\n---- %s", r+2, i, d, c07Label(c.Specs[i]))
+				return false
+			}
+			cl("sequential_repeat")
 		}
+
+		return true
 	}
-	// ---- sequential repetition (catches order-dependent post-processing)
-	for r := 0; r < c.SeqRepeats; r++ {
-		i := 0
-		if r%4 == 3 {
-			i = (r / 4) % len(c.Specs)
-		}
-		if d := base[i].diff(c07Run(c.Specs[i])); d != "" {
-			res.Violation = fmt.Sprintf("sequential compilation %d of spec %d differs from the first one: %s\n---- %s", r+2, i, d, c07Label(c.Specs[i]))
-			return res
-		}
-		cl("sequential_repeat")
+	if c.ColdFirst {
+		cl("concurrent_phase_first_in_cold_process")
+	} else if !sequential() {
+		return res
 	}
 	// ---- concurrent compilations
 	prev := runtime.GOMAXPROCS(c.GoMaxProcs)
@@ -302,6 +316,9 @@ func c07Concurrent(c c07Case) *c07ConcRes {
 		cl("distinct_specs_inflight>=2")
 	}
 	cl(fmt.Sprintf("gomaxprocs_%s", map[bool]string{true: "1", false: ">1"}[c.GoMaxProcs == 1]))
+	if c.ColdFirst && !sequential() {
+		return res
+	}
 	for gi := range results {
 		for r, out := range results[gi] {
 			si := c.Assign[gi]
